@@ -23,6 +23,7 @@ func VerifConstants() map[string]string {
 	put("pktPayload", pktPayload)
 	put("pktNewTicket", pktNewTicket)
 	put("pktPrngSeed", pktPrngSeed)
+	put("ticketFile", ticketFile)
 	put("ticketKeyLength", ticketKeyLength)
 	put("ticketLength", ticketLength)
 	put("ticketLifetime", ticketLifetime)
